@@ -304,20 +304,32 @@ def t_segments( ctx ):
         res.ok( src, si[0], 'size limit = size * 2 octets (size is in words)' )
     else:
         res.bad( src, init_fn, 'size_init', 'the segment limit must be the parsed size (words) times 2' )
-    # --- producer
+    # --- producer (local names are followed by role, not by spelling)
+    from .core import Matcher
     pr = src.get( 'EPATH.produce' )
+    M = Matcher()
     rets = [ r for r in pr.body if isinstance( r, ast.Return ) ]
-    if rets and pmatch( rets[-1].value, "USINT.produce( len( result ) // 2 ) + ( b'\\x00' if cls.PADSIZE else b'' ) + result" ):
+    if rets and M.m( rets[-1].value, "USINT.produce( len( _res ) // 2 ) + ( b'\\x00' if cls.PADSIZE else b'' ) + _res" ):
         res.ok( src, rets[-1], 'produce: USINT( len // 2 ) + pad iff PADSIZE + segments' )
     else:
         res.bad( src, rets[-1] if rets else pr, rets[-1].value if rets else 'return', 'the produced size must be len( segments ) // 2 words, followed by one pad octet iff PADSIZE' )
-    sing = [ i for i in ast.walk( pr ) if isinstance( i, ast.If ) and pmatch( i.test, 'cls.SINGLE' ) and any( pmatch( b, 'return result' ) for b in i.body ) ]
+        return res
+    R = M.name( '_res' )
+    sing = [ i for i in ast.walk( pr ) if isinstance( i, ast.If ) and pmatch( i.test, 'cls.SINGLE' ) and any( pmatch( b_, 'return %s' % R ) for b_ in i.body ) ]
     if sing:
         res.ok( src, sing[0], 'produce: SINGLE returns the bare segment' )
     else:
         res.bad( src, pr, 'EPATH.produce SINGLE', 'a single-segment EPATH is produced without a size' )
+    inner = [ f for f in ast.walk( pr ) if isinstance( f, ast.For ) and pmatch( f.iter, 'cls.SEGMENTS.items()' ) and isinstance( f.target, ast.Tuple ) and len( f.target.elts ) == 2 ]
+    if len( inner ) != 1:
+        raise AnalysisError( 'EPATH.produce: loop over cls.SEGMENTS.items() not found' )
+    NAM, TYP = inner[0].target.elts[0].id, inner[0].target.elts[1].id
+    vals = pfind( inner[0], '_val = _seg[%s]' % NAM )
+    if not vals:
+        raise AnalysisError( 'EPATH.produce: segment value lookup not found' )
+    VAL, SEG = vals[0][1]['_val'].id, ast.unparse( vals[0][1]['_seg'] )
     # numeric chain
-    chain = [ i for i in ast.walk( pr ) if isinstance( i, ast.If ) and pmatch( i.test, 'segval <= 255' ) ]
+    chain = [ i for i in ast.walk( pr ) if isinstance( i, ast.If ) and pmatch( i.test, '%s <= 255' % VAL ) ]
     if len( chain ) != 1:
         raise AnalysisError( 'EPATH.produce: numeric width chain not found' )
     node = chain[0]
@@ -325,56 +337,69 @@ def t_segments( ctx ):
     while isinstance( node, ast.If ):
         rows.append( node )
         node = node.orelse[0] if len( node.orelse ) == 1 and isinstance( node.orelse[0], ast.If ) else None
-    expect = [ ( 'segval <= 255', [ 'USINT.produce( segtyp )', 'USINT.produce( segval )' ], 8 ),
-               ( 'segval <= 65535', [ 'USINT.produce( segtyp + 1 )', 'USINT.produce( 0 )', 'UINT.produce( segval )' ], 16 ),
-               ( "segval <= 4294967295 and segnam == 'element'", [ 'USINT.produce( segtyp + 2 )', 'USINT.produce( 0 )', 'UDINT.produce( segval )' ], 32 ) ]
+    expect = [ ( '%s <= 255' % VAL, [ 'USINT.produce( %s )' % TYP, 'USINT.produce( %s )' % VAL ], 8 ),
+               ( '%s <= 65535' % VAL, [ 'USINT.produce( %s + 1 )' % TYP, 'USINT.produce( 0 )', 'UINT.produce( %s )' % VAL ], 16 ),
+               ( "%s <= 4294967295 and %s == 'element'" % ( VAL, NAM ), [ 'USINT.produce( %s + 2 )' % TYP, 'USINT.produce( 0 )', 'UDINT.produce( %s )' % VAL ], 32 ) ]
     for i, ( test, stmts, bits ) in enumerate( expect ):
         if i >= len( rows ):
             res.bad( src, chain[0], 'EPATH.produce numeric chain', 'no branch produces %d-bit logical segments' % bits )
             continue
         r = rows[i]
-        got = [ s.value for s in r.body if isinstance( s, ast.AugAssign ) and dotted( s.target ) == 'result' ]
+        got = [ s_.value for s_ in r.body if isinstance( s_, ast.AugAssign ) and dotted( s_.target ) == R ]
         if pmatch( r.test, test ) and len( got ) == len( stmts ) and all( pmatch( gexp, pat ) for gexp, pat in zip( got, stmts )):
-            res.ok( src, r, 'produce %d-bit: %s' % ( bits, ', '.join( stmts )))
+            res.ok( src, r, 'produce %d-bit: opcode%s, %svalue' % ( bits, ' + %d' % i if i else '', 'pad, ' if i else '' ))
         else:
             res.bad( src, r, 'if %s: %s' % ( norm_text( r.test ), [ norm_text( x ) for x in got ] ),
                      'a %d-bit logical segment is %s under the test %s' % ( bits, ', '.join( stmts ), test ))
     # symbolic branch
-    sym = [ i for i in ast.walk( pr ) if isinstance( i, ast.If ) and pmatch( i.test, "segnam == 'symbolic'" ) ]
+    sym = [ i for i in ast.walk( pr ) if isinstance( i, ast.If ) and pmatch( i.test, "%s == 'symbolic'" % NAM ) ]
     if sym:
-        got = [ norm_text( s ) for s in sym[0].body ]
         body = sym[0].body
-        ok = bool( pfind( sym[0], 'result += USINT.produce( segtyp )' )) and bool( pfind( sym[0], 'result += USINT.produce( seglen )' )) \
-            and bool( pfind( sym[0], 'seglen = len( encoded )' )) and bool( pfind( sym[0], 'result += encoded' )) \
-            and any( isinstance( b, ast.If ) and pmatch( b.test, 'seglen % 2' ) and ( pfind( b, 'result += USINT.produce( 0 )' ) or pfind( b, "result += b'\\x00'" )) for b in body )
-        order = [ i for i, s in enumerate( body ) if isinstance( s, ast.AugAssign ) ]
+        S = Matcher()
+        ok = S.find( sym[0], '_enc = %s.encode( _e )' % VAL ) is not None and S.find( sym[0], '_len = len( _enc )' ) is not None
+        if ok:
+            LEN, ENC = S.name( '_len' ), S.name( '_enc' )
+            seq = [ txt( s_.value ) for s_ in body if isinstance( s_, ast.AugAssign ) and dotted( s_.target ) == R ]
+            pads = [ b_ for b_ in body if isinstance( b_, ast.If ) and pmatch( b_.test, '%s %% 2' % LEN )
+                     and ( pfind( b_, '%s += USINT.produce( 0 )' % R ) or pfind( b_, "%s += b'\\x00'" % R )) ]
+            ok = seq == [ 'USINT.produce(%s)' % TYP, 'USINT.produce(%s)' % LEN, ENC ] and bool( pads ) and try_fold( S.b['_e'] ) == 'iso-8859-1'
         if ok and isinstance( body[-1], ast.Break ):
-            res.ok( src, sym[0], 'produce symbolic: opcode, length, characters, pad iff odd' )
+            res.ok( src, sym[0], 'produce symbolic: opcode, length, iso-8859-1 characters, pad iff odd' )
         else:
-            res.bad( src, sym[0], 'symbolic branch %s' % got[:6], 'symbolic segment = USINT opcode, USINT length, encoded characters, one zero pad iff the length is odd' )
+            res.bad( src, sym[0], 'symbolic branch %s' % [ norm_text( s_ )[:40] for s_ in body ][:6], 'symbolic segment = USINT opcode, USINT length, iso-8859-1 encoded characters, one zero pad iff the length is odd' )
     else:
         res.bad( src, pr, 'EPATH.produce', 'symbolic segments are not produced' )
+    # the parser decodes symbolic names and link addresses with the same character set
+    init_src = txt( src.get( 'EPATH.__init__' ))
+    if init_src.count( "decode='iso-8859-1'" ) >= 2:
+        res.ok( src, src.get( 'EPATH.__init__' ), 'parser decodes symbolic names and link addresses as iso-8859-1' )
+    else:
+        res.bad( src, src.get( 'EPATH.__init__' ), 'EPATH parser string decoding', 'symbolic names and link addresses are iso-8859-1 on both sides' )
     # port branch
-    prt = [ i for i in ast.walk( pr ) if isinstance( i, ast.If ) and pmatch( i.test, "segnam == 'port'" ) ]
+    prt = [ i for i in ast.walk( pr ) if isinstance( i, ast.If ) and pmatch( i.test, "%s == 'port'" % NAM ) ]
     if prt:
         p = prt[0]
-        split = pfind( p, '( port, pext ) = ( seg.port, 0 ) if seg.port < 15 else ( 15, seg.port )' )
-        intb = [ i for i in ast.walk( p ) if isinstance( i, ast.If ) and pmatch( i.test, 'type( seg.link ) is int' ) ]
-        good = bool( split ) and bool( intb )
-        if good:
+        P = Matcher()
+        split = P.find( p, '( _port, _pext ) = ( %s.port, 0 ) if %s.port < 15 else ( 15, %s.port )' % ( SEG, SEG, SEG ))
+        intb = [ i for i in ast.walk( p ) if isinstance( i, ast.If ) and pmatch( i.test, 'type( %s.link ) is int' % SEG ) ]
+        if split is not None and intb:
+            PORT, PEXT = P.name( '_port' ), P.name( '_pext' )
             ib, ab = intb[0].body, intb[0].orelse
+            E = Matcher()
+            encs = E.find( intb[0], '_enc = %s.link.encode( _e )' % SEG )
+            ENC = E.name( '_enc' ) if encs is not None else '?'
             def appended( stmts ):
                 out = []
-                for s in stmts:
-                    if isinstance( s, ast.AugAssign ) and dotted( s.target ) == 'result':
-                        out.append( txt( s.value ))
-                    elif isinstance( s, ast.If ):
-                        out.append( 'if(' + txt( s.test ) + '){' + ';'.join( appended( s.body )) + '}' )
+                for s_ in stmts:
+                    if isinstance( s_, ast.AugAssign ) and dotted( s_.target ) == R:
+                        out.append( txt( s_.value ))
+                    elif isinstance( s_, ast.If ):
+                        out.append( 'if(' + txt( s_.test ) + '){' + ';'.join( appended( s_.body )) + '}' )
                 return out
-            want_i = [ 'USINT.produce(port)', 'if(pext){UINT.produce(pext)}', 'USINT.produce(seg.link)' ]
-            want_a = [ 'USINT.produce(port|16)', 'USINT.produce(len(encoded))', 'if(pext){UINT.produce(pext)}', 'encoded' ]
+            want_i = [ 'USINT.produce(%s)' % PORT, 'if(%s){UINT.produce(%s)}' % ( PEXT, PEXT ), 'USINT.produce(%s.link)' % SEG ]
+            want_a = [ 'USINT.produce(%s|16)' % PORT, 'USINT.produce(len(%s))' % ENC, 'if(%s){UINT.produce(%s)}' % ( PEXT, PEXT ), ENC ]
             ga = appended( ab )
-            padok = len( ga ) == 5 and ga[4] in ( "if(len(encoded)%2){b'\\x00'}", "if(len(encoded)%2){USINT.produce(0)}" )
+            padok = len( ga ) == 5 and ga[4] in ( "if(len(%s)%%2){b'\\x00'}" % ENC, "if(len(%s)%%2){USINT.produce(0)}" % ENC )
             if appended( ib ) == want_i and ga[:4] == want_a and padok:
                 res.ok( src, p, 'produce port: numeric [port, ext?, link]; address [port|0x10, len, ext?, address, pad iff odd]' )
             else:
